@@ -496,6 +496,13 @@ def finding_key(conv, sent, why):
 # ------------------------------------------------------------------ generators
 STRS = ["", "a", "héllo wörld", "日本語テキスト", "emoji \U0001F600 ✓",
         "x" * 300, "line\nbreak\x00nul", "0", "None"]
+
+STRS_X = [
+    # strings any "helpful" normalisation alters: decomposed accents (NFD, as macOS file names), compatibility
+    # characters (NFC / NFKC), case, surrounding blanks, zero-width characters, CR/LF, numeric look-alikes
+        "re\u0301sume\u0301.pdf", "\u212b\u2126 \uf900", "\ufb01le \u2460", "\u0130stanbul Stra\u00dfe \u01c5",
+        "  padded  ", "zero\u200dwidth\u200b\ufeff", "MiXeD.Case.TXT", "cr\r\nlf\ttab", "+0049 (0)151 007", "\u0660\u0661\u0662"]
+EXTENDED = [True]     # the pinned probes (Gen/C10Probes.v) are drawn from the original pool only
 BYTESS = [b"", b"\x00", b"\xff\xd8\xff\xe0" + bytes(range(256)), bytes(range(32)), b"\x80\x81", b"0"]
 DOUBLES = [0.0, -0.0, 1.5, -122.084095, 37.421998, 1e300, 5e-324, -90.0]
 FLOATS = [0.0, -0.0, 0.5, -2.25, 3.0, 1.0e10, 65504.0]
@@ -507,7 +514,7 @@ def pool(k):
         return LISTS
     t = k[1]
     if t[0] == "TStr":
-        return STRS
+        return STRS + STRS_X if EXTENDED[0] else STRS
     if t[0] == "TBytes":
         return BYTESS
     if t[0] == "TBool":
@@ -1227,6 +1234,14 @@ def fix_aliases(info, conv, v):
 
 
 def pinned_probes(base):
+    EXTENDED[0] = False
+    try:
+        return _pinned_probes(base)
+    finally:
+        EXTENDED[0] = True
+
+
+def _pinned_probes(base):
     import random
     rng = random.Random(20240926)
     g = Gen(base, rng)
